@@ -24,7 +24,7 @@ import numpy as np
 from .. import tlc
 from ..common import Report, MachineryError, seed, quiet
 from . import cyclo12 as cy
-from .tbf_common import (cyclo_library_check, sorted_states, validate_parallel, enumerate_states, run_tlc, drop_scratch, guarded,
+from .tbf_common import (cyclo_library_check, sorted_states, validate_parallel, tlc_batch, drop_scratch, guarded,
                          skipped_private, finish_on_error, project_exact, TOL)
 
 PROPS = {
@@ -711,6 +711,29 @@ def numeric_only(rep, rng, ncases):
                   "conjugation), weights per mesh class (1e-8)")
 
 
+def rt_configs_of(thorough):
+    if thorough:
+        return [
+            ("c01_rt_small", dict(GRAMS="{111444, 221344, 341744}", MESHES="{211, 311, 221, 411}", TOLS="{1}", NWS="{1, 2}", TAUIDS="{1, 2, 4, 6}",
+                                  BOXDIM=2, ORDALL=4, NCS="{1, 3}", DATAMODE='"basis"', NDENSE=2)),
+            ("c01_rt_mesh", dict(GRAMS="{111444, 221544}", MESHES="{321, 331, 441, 621}", TOLS="{2}", NWS="{2}", TAUIDS="{2, 5}",
+                                 BOXDIM=2, ORDALL=4, NCS="{3, 9}", DATAMODE='"dense"', NDENSE=2)),
+            ("c01_rt_nw3", dict(GRAMS="{221344}", MESHES="{221, 311}", TOLS="{1}", NWS="{3}", TAUIDS="{1, 2}",
+                                BOXDIM=2, ORDALL=3, NCS="{1}", DATAMODE='"basis"', NDENSE=1)),
+            ("c01_rt_3d", dict(GRAMS="{111444, 322333}", MESHES="{212, 222}", TOLS="{1, 3}", NWS="{2}", TAUIDS="{1, 7}",
+                               BOXDIM=3, ORDALL=4, NCS="{1, 9}", DATAMODE='"dense"', NDENSE=2)),
+            ("c01_rt_thirds", dict(SS=3, GRAMS="{221344}", MESHES="{311, 331}", TOLS="{1}", NWS="{2}", TAUIDS="{1, 2}",
+                                   BOXDIM=2, ORDALL=3, NCS="{1, 3}", DATAMODE='"dense"', NDENSE=2)),
+        ]
+    else:
+        return [
+            ("c01_rt_small", dict(GRAMS="{111444, 221344}", MESHES="{211, 221, 311}", TOLS="{1}", NWS="{1, 2}", TAUIDS="{1, 2}",
+                                  BOXDIM=2, ORDALL=4, NCS="{1}", DATAMODE='"basis"', NDENSE=1)),
+            ("c01_rt_mesh", dict(GRAMS="{221544}", MESHES="{321, 441}", TOLS="{2}", NWS="{2}", TAUIDS="{4, 6}",
+                                 BOXDIM=2, ORDALL=4, NCS="{3, 9}", DATAMODE='"dense"', NDENSE=1)),
+        ]
+
+
 # ---------------------------------------------------------------- the check
 def check(pid, tier):
     rep = Report(pid, tier, "model_checking")
@@ -762,7 +785,7 @@ def _check(rep, tier):
     else:
         ws_configs = [
             # 1-D problems are contained: rectangular Gram matrices with meshes (n, 1, 1) and shifts (x, 0, 0)
-            ("c01_ws_2d", dict(GRAMS="{111444, 221344, 341744, 431144, 231544}", MESHES="{111, 211, 221, 321, 411}", TOLS="{1}", DIM=2, DMAX=6, STEP=2,
+            ("c01_ws_2d", dict(GRAMS="{111444, 221344, 341744, 231544}", MESHES="{211, 221, 321, 411}", TOLS="{1}", DIM=2, DMAX=6, STEP=2,
                                BOXDIM=2, LEMMADIM=2)),
             ("c01_ws_full", dict(GRAMS="{221344, 341744}", MESHES="{221}", TOLS="{2, 4}", DIM=2, DMAX=2, STEP=2, BOXDIM=3, LEMMADIM=2)),
             # a 3-D non-orthogonal lattice with the full search box
@@ -770,12 +793,22 @@ def _check(rep, tier):
             # centres in thirds (hexagonal and square lattice, meshes with 3 points): not decimal fractions
             ("c01_ws_thirds", dict(SS=3, GRAMS="{111444, 221344}", MESHES="{311, 331}", TOLS="{1}", DIM=2, DMAX=3, STEP=1, BOXDIM=2, LEMMADIM=2)),
         ]
+    rt_configs = rt_configs_of(thorough)
+    sens_sign = ws_cfg(GRAMS="{111444}", MESHES="{211}", TOLS="{1}", DIM=1, DMAX=2, STEP=1, BOXDIM=1, LEMMADIM=1, WrongSign="TRUE")[0]
+    sens_weights = rt_cfg(GRAMS="{111444}", MESHES="{211}", TOLS="{1}", NWS="{1}", TAUIDS="{1}", BOXDIM=1, ORDALL=2, NCS="{1}",
+                          DATAMODE='"basis"', NDENSE=1, NoWeights="TRUE")[0]
+    # all TLC runs of the model-checking part at once (at most four JVMs at a time), the replays afterwards
+    results = tlc_batch([dict(module="MC_WignerSeitz.tla", cfg=ws_cfg(**kw)[0], name=name) for name, kw in ws_configs] +
+                        [dict(module="MC_WSRoundTrip.tla", cfg=rt_cfg(**kw)[0], name=name) for name, kw in rt_configs] +
+                        [dict(module="MC_WignerSeitz.tla", cfg=sens_sign, name="c01_sens_sign", dump=False, workers=2, heap="1g", coverage=False, timeout=900),
+                         dict(module="MC_WSRoundTrip.tla", cfg=sens_weights, name="c01_sens_weights", dump=False, workers=2, heap="1g", coverage=False, timeout=900)])
+    ws_results, rt_results = results[:len(ws_configs)], results[len(ws_configs):len(ws_configs) + len(rt_configs)]
+    st1, st2 = results[-2:]
     n_enum = n_ws = n_amb = n_degen = 0
     cpu0 = os.times()
-    for name, kw in ws_configs:
+    for (name, kw), tst in zip(ws_configs, ws_results):
         cfg, consts = ws_cfg(**kw)
         S = consts["SS"]
-        tst = enumerate_states("MC_WignerSeitz.tla", cfg, name)
         if tst.get("violation"):
             from ..ftable import spec_violation
             spec_violation(rep, tst, name)
@@ -820,33 +853,12 @@ def _check(rep, tier):
     mark = (st.pairs, st.exact_pairs)
 
     # ---------------- transforms: spec -> code
-    if thorough:
-        rt_configs = [
-            ("c01_rt_small", dict(GRAMS="{111444, 221344, 341744}", MESHES="{211, 311, 221, 411}", TOLS="{1}", NWS="{1, 2}", TAUIDS="{1, 2, 4, 6}",
-                                  BOXDIM=2, ORDALL=4, NCS="{1, 3}", DATAMODE='"basis"', NDENSE=2)),
-            ("c01_rt_mesh", dict(GRAMS="{111444, 221544}", MESHES="{321, 331, 441, 621}", TOLS="{2}", NWS="{2}", TAUIDS="{2, 5}",
-                                 BOXDIM=2, ORDALL=4, NCS="{3, 9}", DATAMODE='"dense"', NDENSE=2)),
-            ("c01_rt_nw3", dict(GRAMS="{221344}", MESHES="{221, 311}", TOLS="{1}", NWS="{3}", TAUIDS="{1, 2}",
-                                BOXDIM=2, ORDALL=3, NCS="{1}", DATAMODE='"basis"', NDENSE=1)),
-            ("c01_rt_3d", dict(GRAMS="{111444, 322333}", MESHES="{212, 222}", TOLS="{1, 3}", NWS="{2}", TAUIDS="{1, 7}",
-                               BOXDIM=3, ORDALL=4, NCS="{1, 9}", DATAMODE='"dense"', NDENSE=2)),
-            ("c01_rt_thirds", dict(SS=3, GRAMS="{221344}", MESHES="{311, 331}", TOLS="{1}", NWS="{2}", TAUIDS="{1, 2}",
-                                   BOXDIM=2, ORDALL=3, NCS="{1, 3}", DATAMODE='"dense"', NDENSE=2)),
-        ]
-    else:
-        rt_configs = [
-            ("c01_rt_small", dict(GRAMS="{111444, 221344}", MESHES="{211, 221, 311}", TOLS="{1}", NWS="{1, 2}", TAUIDS="{1, 2}",
-                                  BOXDIM=2, ORDALL=4, NCS="{1}", DATAMODE='"basis"', NDENSE=1)),
-            ("c01_rt_mesh", dict(GRAMS="{221544}", MESHES="{321, 441}", TOLS="{2}", NWS="{2}", TAUIDS="{4, 6}",
-                                 BOXDIM=2, ORDALL=4, NCS="{3, 9}", DATAMODE='"dense"', NDENSE=1)),
-        ]
     n_rt = n_wsd = n_perm = n_excl = 0
     kinds = set()
     cpu0 = os.times()
-    for name, kw in rt_configs:
+    for (name, kw), tst in zip(rt_configs, rt_results):
         cfg, consts = rt_cfg(**kw)
         S = consts["SS"]
-        tst = enumerate_states("MC_WSRoundTrip.tla", cfg, name)
         if tst.get("violation"):
             from ..ftable import spec_violation
             spec_violation(rep, tst, name)
@@ -894,13 +906,8 @@ def _check(rep, tier):
         rep.part("tolerance_warning", observed=dev.max, tolerance=TOL, what="the tolerance is less than 10^4 times the observed deviation")
 
     # ---------------- sensitivity
-    st1 = run_tlc("MC_WignerSeitz.tla", ws_cfg(GRAMS="{111444}", MESHES="{211}", TOLS="{1}", DIM=1, DMAX=2, STEP=1, BOXDIM=1, LEMMADIM=1,
-                                               WrongSign="TRUE")[0], "c01_sens_sign", workers=2, heap="1g", coverage=False, timeout=900)
     if not st1.get("violation") or st1["violation"][1] != "MinusSymmetry":
         raise MachineryError(f"sensitivity self-test failed: (b,a) searched with the shift of (a,b) should violate MinusSymmetry ({st1.get('violation')}, {st1.get('error')})")
-    st2 = run_tlc("MC_WSRoundTrip.tla", rt_cfg(GRAMS="{111444}", MESHES="{211}", TOLS="{1}", NWS="{1}", TAUIDS="{1}", BOXDIM=1, ORDALL=2,
-                                               NCS="{1}", DATAMODE='"basis"', NDENSE=1, NoWeights="TRUE")[0], "c01_sens_weights",
-                  workers=2, heap="1g", coverage=False, timeout=900)
     if not st2.get("violation") or st2["violation"][1] not in ("RoundTrip", "WsDistKeeps"):
         raise MachineryError(f"sensitivity self-test failed: dropping the weights 1/Ndegen should violate RoundTrip / WsDistKeeps ({st2.get('violation')}, {st2.get('error')})")
     rep.part("sensitivity", wrong_shift_sign=st1["violation"][1], no_degeneracy_weights=st2["violation"][1])
@@ -909,7 +916,7 @@ def _check(rep, tier):
         drop_scratch(x)
 
     # ---------------- code -> spec
-    quota = dict(setrvec=200, qtor=120, wsdist=80) if thorough else dict(setrvec=8, qtor=8, wsdist=8)
+    quota = dict(setrvec=200, qtor=120, wsdist=80) if thorough else dict(setrvec=6, qtor=6, wsdist=6)
     recs = []
     forced = make_record(rep, rng, thorough, "qtor", forced=True)
     if forced is not None:
